@@ -9,11 +9,11 @@ CLAIM = ('V1 transport only: a real sender V1Transport (net.cpp SetMessageToSend
 def e(tlen, plen, lo, hi, tamper=-1, newlen=-1):
     nm = 't%d_p%d_c%d_%d' % (tlen, plen, lo, hi) + ('' if tamper < 0 else '_x%d' % tamper) + ('' if newlen < 0 else '_l%d' % newlen)
     return (nm, '%d, %d, %d, %d, %d, %dL' % (tlen, plen, lo, hi, tamper, newlen))
-quick = [e(6, 4, 0, 0)]
+quick = [e(2, 4, 0, 0), e(2, 4, 1, 3)]
 thorough = list(quick)
 LINK = ['net.cpp', 'protocol.cpp']
 HARNESSES = [
-    H('v1xfer', 'v1xfer.cpp', 'h_v1', link=LINK, entries=quick, tentries=thorough, shadow=['nofmt'], unwind=34, memunwind=72, timeout=600, objbits=11,
+    H('v1xfer', 'v1xfer.cpp', 'h_v1', link=LINK, entries=quick, tentries=thorough, shadow=['nofmt'], unwind=34, memunwind=112, timeout=600, objbits=11,
       functions=['V1Transport::SetMessageToSend/GetBytesToSend/MarkBytesSent/ReceivedBytes/readHeader/readData/GetMessageHash/GetReceivedMessage/ReceivedMessageComplete/Reset (net.cpp, net.h)',
                  'CMessageHeader ctor/(de)serialization/GetMessageType/IsMessageTypeValid (protocol.cpp, protocol.h)', 'DataStream, VectorWriter (streams.h)', 'CHash256/Hash (hash.h)'],
       stubs=[], bounds=''),
